@@ -44,7 +44,8 @@ impl Jbrd {
 
     pub fn data(&self) -> Option<&JpegBitstreamData> {
         match self {
-            Self::Init(data) => Some(data),
+            // The header is parsed before the data section is fully decompressed.
+            Self::Init(data) if data.is_complete() => Some(data),
             _ => None,
         }
     }
